@@ -446,7 +446,7 @@ def accept(u: U):
     for e in exps:
         u.check("C16.accept.deadline_key", And(text_eq(e[2], kd), text_eq(e[3], kp), e[4] is name),
                 "I16.exp: the deadline is filed under the key the cookie is stored under")
-    if isinstance(max_age, _MaxAge) and exps:
+    if isinstance(max_age, _MaxAge) and hasattr(max_age, "delta") and exps:
         delta = max_age.delta
         u.check("C16.accept.max_age_deadline",
                 Or(exps[0][1] == now + delta, exps[0][1] == live().CookieJar.MAX_TIME),
@@ -456,6 +456,14 @@ def accept(u: U):
                 "a parsable Expires date - including the epoch - becomes the cookie's deadline (an Expires in the past is "
                 "how a server deletes a cookie: it must not turn into a session cookie)",
                 known=[("F16c", parsed["ts"] == 0)], witness={"Set-Cookie": "n=v; Expires=Thu, 01 Jan 1970 00:00:00 GMT"})
+    # RFC 6265 5.2.2 / 5.3 step 3: a Max-Age whose value is not a number is IGNORED (as if absent), so an Expires
+    # attribute next to it decides the lifetime; a valid Max-Age has precedence over Expires
+    max_age_counts = isinstance(max_age, _MaxAge) and hasattr(max_age, "delta")
+    if not max_age_counts and not isinstance(expires, str):
+        u.check("C16.accept.expires_applies_when_max_age_is_absent_or_invalid", Or("ts" in parsed, expires == ""),
+                "with no usable Max-Age the Expires attribute is consulted: 'Max-Age=abc; Expires=<a past date>' must not "
+                "yield a cookie that is kept and sent indefinitely",
+                known=[("F16d", isinstance(max_age, _MaxAge))], witness={"Set-Cookie": "n=v; Max-Age=abc; Expires=Tue, 01 Jan 1980 12:00:00 GMT"})
     u.check("C16.accept.sweep_after", bool(ev) and ev[-1] == ("sweep",),
             "expired cookies (Max-Age <= 0) are swept before update_cookies returns")
 
